@@ -206,20 +206,22 @@ Definition include_fn {A} (body : rst -> (A * option string) * rst) (dflt : A) (
   end.
 
 Section Tpl.
-  (* text/template *)
+  (* text/template; [src] is the template text in whatever form the instance parses *)
   Variable tset : Type.
+  Variable src : Type.
+  Variable src_text : src -> string.
   Variable t_clone : tset -> option tset.                    (* parent.Clone() *)
   Variable t_option : bool -> tset -> tset.                  (* t.Option("missingkey=error" | "missingkey=zero") *)
   Variable t_rebind : tset -> tset.                          (* t.Funcs{include, tpl} closing over the clone *)
-  Variable t_parse_new : tset -> string -> option tset.      (* t.New(parent.Name()).Parse(tpl) *)
+  Variable t_parse_new : tset -> src -> option tset.         (* t.New(parent.Name()).Parse(tpl) *)
   Variable t_execute : tset -> rst -> val -> (string * option string) * rst.   (* t.Execute(&buf, vals) *)
 
   Definition tpl_depth_error : string := "tpl is nested more than 1000 levels deep: unable to execute template".
 
   (* tplFun: (result, error) and the counters *)
-  Definition tpl_fn (strict : bool) (parent : tset) (s : rst) (text : string) (vals : val)
+  Definition tpl_fn (strict : bool) (parent : tset) (s : rst) (text : src) (vals : val)
     : (string * option string) * rst :=
-    match enter PanicsRec.engine_cfg s KTpl text with
+    match enter PanicsRec.engine_cfg s KTpl (src_text text) with
     | None => (("", Some tpl_depth_error), s)
     | Some s1 =>
         match t_clone parent with
@@ -227,11 +229,11 @@ Section Tpl.
         | Some t =>
             let t := t_rebind (t_option strict t) in
             match t_parse_new t text with
-            | None => (("", Some ("cannot parse template " ++ text)), leave s1)
+            | None => (("", Some ("cannot parse template " ++ src_text text)), leave s1)
             | Some t' =>
                 let '((out, err), s2) := t_execute t' s1 vals in
                 match err with
-                | Some e => (("", Some ("error during tpl function execution for " ++ text ++ ": " ++ e)), leave s2)
+                | Some e => (("", Some ("error during tpl function execution for " ++ src_text text ++ ": " ++ e)), leave s2)
                 | None => ((replace_all no_value "" out, None), leave s2)     (* the <no value> hack *)
                 end
             end
